@@ -663,6 +663,10 @@ async def scenario_corrupt_frame(ctx, rng, t) -> None:
         await w.close()
 
 
+class BusyLoopAbort(BaseException):
+    """Raised inside the connector by the monitor once an absurd number of attempts happened (cuts zero-time loops)."""
+
+
 class ConnectOnceLog:
     """Records every activation of SecureHomeKitConnection._connect_once (enter/exit in virtual time, outcome).
 
@@ -675,6 +679,7 @@ class ConnectOnceLog:
         self.activations: list[dict] = []
         self.active = 0
         self.max_active = 0
+        self.limit = 3500
 
     def install(self):
         from aiohomekit.controller.ip import connection as conn_mod
@@ -686,6 +691,8 @@ class ConnectOnceLog:
 
         async def _connect_once(conn_self):
             loop = asyncio.get_running_loop()
+            if len(log.activations) > log.limit:
+                raise BusyLoopAbort(f"{len(log.activations)} connection attempts")
             rec = {"i": len(log.activations), "t0": loop.time(), "t1": None, "exc": None, "ok": False,
                    "first_conn": len(log.world.accessory.conns), "net_attempt0": len(log.world.net.attempts)}
             log.activations.append(rec)
